@@ -38,6 +38,7 @@ from ...util.typing import Unpack
 
 if TYPE_CHECKING:
     from ...engine import CursorResult
+    from ...engine._result_cy import _UniqueFilterStateType
     from ...engine.result import _KeyIndexType
     from ...engine.result import _UniqueFilterType
 
@@ -494,7 +495,9 @@ class AsyncResult(_WithKeys, AsyncCommon[Row[Unpack[_Ts]]]):
          referring to this :class:`_asyncio.AsyncResult` object.
 
         """
-        return AsyncScalarResult(self._real_result, index)
+        return AsyncScalarResult(
+            self._real_result, index, self._unique_filter_state
+        )
 
     def mappings(self) -> AsyncMappingResult:
         """Apply a mappings filter to returned rows, returning an instance of
@@ -509,7 +512,9 @@ class AsyncResult(_WithKeys, AsyncCommon[Row[Unpack[_Ts]]]):
 
         """
 
-        return AsyncMappingResult(self._real_result)
+        return AsyncMappingResult(
+            self._real_result, self._unique_filter_state
+        )
 
 
 class AsyncScalarResult(AsyncCommon[_R]):
@@ -534,6 +539,7 @@ class AsyncScalarResult(AsyncCommon[_R]):
         self,
         real_result: Result[Unpack[TupleAny]],
         index: _KeyIndexType,
+        _unique_filter_state: Optional[_UniqueFilterStateType] = None,
     ):
         self._real_result = real_result
 
@@ -544,7 +550,11 @@ class AsyncScalarResult(AsyncCommon[_R]):
             self._metadata = real_result._metadata._reduce([index])
             self._post_creational_filter = operator.itemgetter(0)
 
-        self._unique_filter_state = real_result._unique_filter_state
+        # the unique() filter of the AsyncResult this view was made from,
+        # which is not necessarily that of the underlying sync result
+        self._unique_filter_state = (
+            _unique_filter_state or real_result._unique_filter_state
+        )
 
     def unique(
         self,
@@ -665,9 +675,15 @@ class AsyncMappingResult(_WithKeys, AsyncCommon[RowMapping]):
 
     _post_creational_filter = operator.attrgetter("_mapping")
 
-    def __init__(self, result: Result[Unpack[TupleAny]]):
+    def __init__(
+        self,
+        result: Result[Unpack[TupleAny]],
+        _unique_filter_state: Optional[_UniqueFilterStateType] = None,
+    ):
         self._real_result = result
-        self._unique_filter_state = result._unique_filter_state
+        self._unique_filter_state = (
+            _unique_filter_state or result._unique_filter_state
+        )
         self._metadata = result._metadata
         if result._source_supports_scalars:
             self._metadata = self._metadata._reduce([0])
